@@ -228,7 +228,7 @@ type Conn struct {
 	bus    *Bus
 	id     int
 	closed atomic.Bool
-	down   bool // link down (controlled by the harness)
+	down   atomic.Bool // link down (controlled by the harness)
 	subs   []*Subscription
 	buf    []*Msg // published while the link is down
 }
@@ -299,7 +299,7 @@ func (nc *Conn) TLSRequired() bool { return false }
 func (nc *Conn) IsClosed() bool { return nc == nil || nc.closed.Load() }
 
 // IsConnected reports link state.
-func (nc *Conn) IsConnected() bool { return nc != nil && !nc.closed.Load() && !nc.down }
+func (nc *Conn) IsConnected() bool { return nc != nil && !nc.closed.Load() && !nc.down.Load() }
 
 func goID() int64 {
 	var buf [64]byte
@@ -576,6 +576,13 @@ func (nc *Conn) publish(subj, reply string, data []byte) error {
 		return ErrBadSubject
 	}
 	b := nc.bus
+	if nc.down.Load() {
+		// like nats.go with a reconnect buffer: accepted, sent when the link is back
+		b.mu.Lock()
+		nc.buf = append(nc.buf, &Msg{Subject: subj, Reply: reply, Data: append([]byte(nil), data...)})
+		b.mu.Unlock()
+		return nil
+	}
 	_, err := b.route(nc, subj, reply, data, true)
 	return err
 }
@@ -594,6 +601,9 @@ func (b *Bus) route(nc *Conn, subj, reply string, data []byte, dispatch bool) (i
 		}
 		if s.conn == nc && nc.Opts.NoEcho {
 			continue
+		}
+		if s.conn.down.Load() {
+			continue // the server cannot reach this client: the message is lost for it
 		}
 		if matches(s.Subject, subj) {
 			targets = append(targets, s)
@@ -696,6 +706,10 @@ func (nc *Conn) Request(subj string, data []byte, timeout time.Duration) (*Msg, 
 	if mode == Inline && inDispatch {
 		panic("nats shim: Request from inside a subscription callback is not supported on an inline bus")
 	}
+	if nc.down.Load() {
+		time.Sleep(timeout)
+		return nil, ErrTimeout
+	}
 	n, err := b.route(nc, subj, inbox, data, false)
 	if err != nil {
 		return nil, err
@@ -760,7 +774,7 @@ func (nc *Conn) Close() {
 			break
 		}
 	}
-	wasDown := nc.down
+	wasDown := nc.down.Load()
 	b.mu.Unlock()
 	run := func() {
 		if nc.Opts.DisconnectedCB != nil && !wasDown {
@@ -881,5 +895,57 @@ func (b *Bus) Grant(p PendingDelivery) {
 	p.sub.mu.Unlock()
 	if !ended {
 		p.sub.grant <- struct{}{}
+	}
+}
+
+// ---------------------------------------------------------------------------
+// link faults (harness API)
+
+// Conns returns the open connections of the bus.
+func (b *Bus) Conns() []*Conn {
+	b.mu.Lock()
+	defer b.mu.Unlock()
+	return append([]*Conn{}, b.conns...)
+}
+
+// LinkDown cuts the link of one connection abruptly: deliveries queued for it
+// are lost, the server stops routing to it, its publishes are buffered, and its
+// Disconnected handler runs.
+func (nc *Conn) LinkDown() {
+	if nc == nil || nc.closed.Load() || nc.down.Load() {
+		return
+	}
+	nc.down.Store(true)
+	b := nc.bus
+	b.mu.Lock()
+	subs := append([]*Subscription{}, nc.subs...)
+	b.mu.Unlock()
+	for _, s := range subs {
+		s.mu.Lock()
+		s.pending = nil
+		s.mu.Unlock()
+	}
+	if nc.Opts.DisconnectedCB != nil {
+		nc.runHandler(nc.Opts.DisconnectedCB)
+	}
+}
+
+// LinkUp restores the link: buffered publishes are sent in order, then the
+// Reconnected handler runs (subscriptions survive, as nats.go re-subscribes).
+func (nc *Conn) LinkUp() {
+	if nc == nil || nc.closed.Load() || !nc.down.Load() {
+		return
+	}
+	nc.down.Store(false)
+	b := nc.bus
+	b.mu.Lock()
+	buf := nc.buf
+	nc.buf = nil
+	b.mu.Unlock()
+	for _, m := range buf {
+		_, _ = b.route(nc, m.Subject, m.Reply, m.Data, true)
+	}
+	if nc.Opts.ReconnectedCB != nil {
+		nc.runHandler(nc.Opts.ReconnectedCB)
 	}
 }
